@@ -6,6 +6,7 @@ use vstd::std_specs::ops::*;
 use vstd::std_specs::cmp::*;
 verus! {
 
+//@include _shared/std_specs.rs
 //@include _shared/signal_prelude.rs
 
 // ---------------------------------------------------------------------------------------------
